@@ -155,6 +155,7 @@ pub struct Kernel {
     pub fds: [FdEnt; MAX_FDS],
     pub log: [Call; MAX_CALLS],
     pub ncalls: usize,
+    pub ncalls_total: usize,
     // violation / bookkeeping flags (never panic inside model functions)
     pub v_log_overflow: bool,
     pub v_fd_overflow: bool,
@@ -167,6 +168,7 @@ pub struct Kernel {
     pub nclose: usize,
     /// fault plan: when set, every call answers Err.
     pub all_fail: bool,
+    pub fixed_errno: i32,
     pub plan: [u8; MAX_CALLS],
     pub nfallible: usize,
     /// scenario switch for stubs returning Option-shaped data (None = arbitrary)
@@ -185,6 +187,7 @@ pub static mut K: Kernel = Kernel {
     fds: [NO_FD; MAX_FDS],
     log: [NO_CALL; MAX_CALLS],
     ncalls: 0,
+    ncalls_total: 0,
     v_log_overflow: false,
     v_fd_overflow: false,
     v_name_too_long: false,
@@ -195,6 +198,7 @@ pub static mut K: Kernel = Kernel {
     v_use_unknown: false,
     nclose: 0,
     all_fail: false,
+    fixed_errno: 0,
     plan: [P_ANY; MAX_CALLS],
     nfallible: 0,
     want_base: [P_ANY; 2],
@@ -205,6 +209,11 @@ pub static mut K: Kernel = Kernel {
 
 /// any errno the kernel may return (1..=133)
 pub fn any_errno() -> i32 {
+    // scenario harnesses may pin the errno (keeps retry loops concrete)
+    let fx = unsafe { K.fixed_errno };
+    if fx != 0 {
+        return fx;
+    }
     let e: i32 = kani::any();
     kani::assume(e >= 1 && e <= 133);
     e
@@ -313,6 +322,7 @@ impl Kernel {
     }
 
     pub fn push(&mut self, c: Call) -> usize {
+        self.ncalls_total += 1;
         if self.ncalls >= MAX_CALLS {
             self.v_log_overflow = true;
             return MAX_CALLS - 1;
@@ -391,6 +401,7 @@ pub fn reset(base: i32) {
         K.base = base;
         K.next = 0;
         K.ncalls = 0;
+        K.ncalls_total = 0;
         K.nclose = 0;
         K.nfallible = 0;
         K.nsplit = 0;
@@ -721,7 +732,7 @@ pub fn k_renameat2<Fd1: AsFd, P1: AsRef<Path>, Fd2: AsFd, P2: AsRef<Path>>(
     }
 }
 
-fn zero_stat() -> Stat {
+pub fn zero_stat() -> Stat {
     // SAFETY: `Stat` is a plain C struct of integers.
     unsafe { std::mem::zeroed() }
 }
@@ -1096,4 +1107,62 @@ pub fn of_set(c: usize, b: i32, t: bool, r: i32) {
 }
 pub fn of_get() -> (usize, i32, bool, i32) {
     unsafe { OF }
+}
+
+// generic counters for contract stubs
+pub static mut COUNTERS: [usize; 4] = [0; 4];
+pub fn counter_inc(i: usize) -> usize {
+    unsafe {
+        COUNTERS[i] += 1;
+        COUNTERS[i]
+    }
+}
+pub fn counter_get(i: usize) -> usize {
+    unsafe { COUNTERS[i] }
+}
+pub fn counter_reset() {
+    unsafe { COUNTERS = [0; 4] }
+}
+
+// euid / sysctl model values: symbolic, fixed per run, readable by the harness
+pub static mut MODEL_EUID: Option<u32> = None;
+pub static mut MODEL_SYSCTL: Option<u32> = None;
+pub fn model_euid() -> u32 {
+    unsafe {
+        if MODEL_EUID.is_none() {
+            MODEL_EUID = Some(kani::any());
+        }
+        MODEL_EUID.unwrap()
+    }
+}
+pub fn model_sysctl() -> u32 {
+    unsafe {
+        if MODEL_SYSCTL.is_none() {
+            MODEL_SYSCTL = Some(kani::any());
+        }
+        MODEL_SYSCTL.unwrap()
+    }
+}
+pub fn k_model_geteuid() -> u32 {
+    model_euid()
+}
+/// `utils::sysctl_read_parse::<u32>`: any value the parser can produce.
+pub fn k_sysctl_read_parse<T>(_procfs: &crate::procfs::ProcfsHandle, _sysctl: &str) -> Result<T, crate::error::Error>
+where
+    T: std::str::FromStr,
+    crate::error::Error: From<T::Err>,
+{
+    let v: u32 = model_sysctl();
+    assert!(std::mem::size_of::<T>() == 4);
+    // SAFETY: only instantiated at T = u32 (asserted by size; the only caller)
+    Ok(unsafe { std::mem::transmute_copy::<u32, T>(&v) })
+}
+
+// four scratch words for recording stubs
+pub static mut SCRATCH: (u64, u64, u64, u64) = (0, 0, 0, 0);
+pub fn scratch_set(a: u64, b: u64, c: u64, d: u64) {
+    unsafe { SCRATCH = (a, b, c, d) }
+}
+pub fn scratch_get() -> (u64, u64, u64, u64) {
+    unsafe { SCRATCH }
 }
